@@ -9,10 +9,21 @@ From DD Require Import Model.Circuit Model.Query Model.TwiseCfg Model.TwiseMerge
 Import ListNotations.
 Open Scope Z_scope.
 
+Lemma uniq_nat_in l x : In x (uniq_nat l) <-> In x l.
+Proof.
+  induction l as [|a l IH]; cbn [uniq_nat]; [tauto|]. cbn [In]. rewrite filter_In, IH.
+  destruct (Nat.eqb_spec a x) as [->|Hne]; cbn [negb]; [intuition congruence|intuition].
+Qed.
+
+Lemma uniq_nat_nodup l : NoDup (uniq_nat l).
+Proof.
+  induction l as [|a l IH]; cbn [uniq_nat]; [constructor|]. constructor; [|now apply NoDup_filter].
+  intros H. apply filter_In in H. destruct H as [_ H]. now rewrite Nat.eqb_refl in H.
+Qed.
+
 Section Pass.
 Variables (C : circuit) (n : nat).
 Hypothesis HQ : WFQ C n.
-Hypothesis Hdup : nodup_children C = true.
 Let d := build C n.
 
 Variable NI : nat -> sres -> Prop.
@@ -75,13 +86,13 @@ Proof.
       assert (i < i)%nat; [|lia]. apply Hpar. apply parents_spec; [lia|]. split; [exact Hi|now rewrite Hcs].
 Qed.
 
-Lemma remove_ok i : forall cs ps, NoDup cs -> (forall c, In c cs -> (c < length ps)%nat) ->
+Lemma remove_v0_ok i : forall cs ps, NoDup cs -> (forall c, In c cs -> (c < length ps)%nat) ->
   (forall c, In c cs -> nth c ps None <> None) ->
-  exists ps', remove_unneeded d i cs ps = Some ps' /\ length ps' = length ps /\
+  exists ps', remove_unneeded_v0 d i cs ps = Some ps' /\ length ps' = length ps /\
   forall j, nth j ps' None = nth j ps None \/
             (nth j ps' None = None /\ In j cs /\ forall q, In q (nth j (parents C) []) -> (q <= i)%nat).
 Proof.
-  unfold remove_unneeded. induction cs as [|c cs IH]; intros ps Hnd Hlt Hsome; cbn [fold_left].
+  unfold remove_unneeded_v0. induction cs as [|c cs IH]; intros ps Hnd Hlt Hsome; cbn [fold_left].
   - exists ps. split; [reflexivity|]. split; [reflexivity|]. intros j. now left.
   - inversion Hnd as [|? ? Hnotin Hnd']; subst.
     change (pars d) with (parents C).
@@ -102,6 +113,21 @@ Proof.
       * intros x Hx. apply Hsome. now right.
       * exists ps'. split; [exact H1|]. split; [exact H2|].
         intros j. destruct (H3 j) as [E|[E1 [E2 E3]]]; [now left|right]. split; [exact E1|]. split; [now right|exact E3].
+Qed.
+
+(* after the repair F13 the children are de-duplicated first: no hypothesis on the child lists *)
+Lemma remove_ok i cs ps : (forall c, In c cs -> (c < length ps)%nat) ->
+  (forall c, In c cs -> nth c ps None <> None) ->
+  exists ps', remove_unneeded d i cs ps = Some ps' /\ length ps' = length ps /\
+  forall j, nth j ps' None = nth j ps None \/
+            (nth j ps' None = None /\ In j cs /\ forall q, In q (nth j (parents C) []) -> (q <= i)%nat).
+Proof.
+  intros Hlt Hsome. unfold remove_unneeded.
+  destruct (remove_v0_ok i (uniq_nat cs) ps (uniq_nat_nodup cs)) as [ps' [H1 [H2 H3]]].
+  - intros c Hc. apply Hlt. now apply uniq_nat_in.
+  - intros c Hc. apply Hsome. now apply uniq_nat_in.
+  - exists ps'. split; [exact H1|]. split; [exact H2|]. intros j. destruct (H3 j) as [E|[E1 [E2 E3]]]; [now left|right].
+    split; [exact E1|]. split; [now apply uniq_nat_in|exact E3].
 Qed.
 
 Lemma step_ok i ps : (i < length C)%nat -> PassInv i ps ->
@@ -125,13 +151,13 @@ Proof.
   assert (Hsame : forall j : nat, nth j ps None = nth j ps None \/
                (nth j ps None = None /\ In j (children (nth i C FalseN)) /\
                 forall q, In q (nth j (parents C) []) -> (q <= i)%nat)) by (intros j; now left).
-  assert (Hnode : forall cs, children (nth i C FalseN) = cs -> NoDup cs ->
+  assert (Hnode : forall cs, children (nth i C FalseN) = cs ->
             exists rs ps1, lookup ps cs = Some rs /\ Forall2 NI cs rs /\ remove_unneeded d i cs ps = Some ps1 /\
               length ps1 = length ps /\
               (forall j, nth j ps1 None = nth j ps None \/
                  (nth j ps1 None = None /\ In j cs /\ forall q, In q (nth j (parents C) []) -> (q <= i)%nat))).
-  { intros cs Ecs Hnd. destruct (lookup_ok i ps cs Hi Ecs Hinv cs (incl_refl _)) as [rs [Hl HF]].
-    destruct (remove_ok i cs ps Hnd) as [ps1 [H1 [H2 H3]]].
+  { intros cs Ecs. destruct (lookup_ok i ps cs Hi Ecs Hinv cs (incl_refl _)) as [rs [Hl HF]].
+    destruct (remove_ok i cs ps) as [ps1 [H1 [H2 H3]]].
     - intros c Hc. rewrite Hlen. assert (c < i)%nat by (apply (child_lt C n HQ i c Hi); now rewrite Ecs). lia.
     - intros c Hc Habs.
       assert (Hci : (c < i)%nat) by (apply (child_lt C n HQ i c Hi); now rewrite Ecs).
@@ -139,12 +165,11 @@ Proof.
       assert (i < i)%nat; [|lia]. apply Hpar. apply parents_spec; [lia|]. split; [exact Hi|now rewrite Ecs].
     - exists rs, ps1. auto. }
   unfold gstep. rewrite Hps.
-  pose proof (children_nodup C Hdup i Hi) as Hnd.
   destruct (nth i C FalseN) as [l|cs|cs| |] eqn:E.
   - eexists. split; [reflexivity|]. apply Hfin; [now apply Hlit|reflexivity|exact Hsame].
-  - destruct (Hnode cs eq_refl Hnd) as [rs [ps1 [Hl [HF [H1 [H2 H3]]]]]]. rewrite Hl, H1. cbn [option_map].
+  - destruct (Hnode cs eq_refl) as [rs [ps1 [Hl [HF [H1 [H2 H3]]]]]]. rewrite Hl, H1. cbn [option_map].
     eexists. split; [reflexivity|]. apply Hfin; [now apply (Hand i cs rs)|exact H2|exact H3].
-  - destruct (Hnode cs eq_refl Hnd) as [rs [ps1 [Hl [HF [H1 [H2 H3]]]]]]. rewrite Hl, H1. cbn [option_map].
+  - destruct (Hnode cs eq_refl) as [rs [ps1 [Hl [HF [H1 [H2 H3]]]]]]. rewrite Hl, H1. cbn [option_map].
     eexists. split; [reflexivity|]. apply Hfin; [now apply (Hor i cs rs)|exact H2|exact H3].
   - eexists. split; [reflexivity|]. apply Hfin; [now apply Htrue|reflexivity|exact Hsame].
   - eexists. split; [reflexivity|]. apply Hfin; [now apply Hfalse|reflexivity|exact Hsame].
